@@ -204,7 +204,7 @@ BaseForest == (1 :> Chunk(B1)) @@ (2 :> Chunk(B2))
 (* "obj": small trees for exploring the reader object.
    "d1": depth 1, up to 3 leaf parts, ill-formed ones included (off + size beyond the blob).
    "d2": root of <= 2 parts over {3 leaf parts} + windows into node 102 (<= 2 leaf parts).
-   "d3": a chain 101 -> 102 -> 103 with one extra leaf part at each level. *)
+   "d3": a chain 101 -> 102 -> 103 with one extra leaf part at each level ("d3q": fewer deepest nodes). *)
 SomeLeaves == {HolePart(1), BlobPart(1, 0, 3), BlobPart(1, 1, 1), BlobPart(2, 1, 1), BlobPart(2, 0, 1)}
 FamilyOf(fam) ==
   CASE fam = "obj" -> {BaseForest @@ (Root :> Node("file", ps)) : ps \in SeqsUpTo(SomeLeaves, 2) \cup {<<>>}}
@@ -212,6 +212,13 @@ FamilyOf(fam) ==
     [] fam = "d2" -> {BaseForest @@ (102 :> Node("bytes", p2)) @@ (Root :> Node("file", p1)) :
                          p2 \in SeqsUpTo(SomeLeaves, 2),
                          p1 \in SeqsUpTo(SomeLeaves \cup BytesParts(BaseForest, 102, 0..3, 1..4), 2)}
+    [] fam = "d3q" -> {BaseForest @@ (103 :> Node("bytes", p3)) @@ (102 :> Node("bytes", p2)) @@ (Root :> Node("file", p1)) :
+                         p3 \in {<<BlobPart(1, 0, 3)>>, <<BlobPart(1, 1, 2), BlobPart(2, 0, 1)>>, <<HolePart(1), BlobPart(1, 1, 2)>>},
+                         p2 \in {<<x, y>> : x \in BytesParts(BaseForest, 103, 0..2, 1..3), y \in {BlobPart(2, 0, 2), BlobPart(1, 1, 1)}}
+                                \cup {<<x>> : x \in BytesParts(BaseForest, 103, 0..2, 1..3)},
+                         p1 \in {<<y, x>> : x \in BytesParts(BaseForest, 102, 0..2, 1..4), y \in {BlobPart(2, 1, 1), HolePart(2)}}
+                                \cup {<<x>> : x \in BytesParts(BaseForest, 102, 0..2, 1..4)}
+                                \cup {<<x, z>> : x \in BytesParts(BaseForest, 102, 0..2, 1..4), z \in BytesParts(BaseForest, 103, 0..1, 1..2)}}
     [] fam = "d3" -> {BaseForest @@ (103 :> Node("bytes", p3)) @@ (102 :> Node("bytes", p2)) @@ (Root :> Node("file", p1)) :
                          p3 \in SeqsUpTo({BlobPart(1, 0, 3), BlobPart(1, 1, 2), BlobPart(2, 0, 1), HolePart(1)}, 2),
                          p2 \in {<<x, y>> : x \in BytesParts(BaseForest, 103, 0..2, 1..4), y \in {BlobPart(2, 0, 2), BlobPart(1, 1, 1)}}
@@ -251,6 +258,9 @@ IllFormedDetected == (Family = "d1" /\ ~WellFormed(rF, rRoot)) => Len(Denote(rF,
 MechRefines == WellFormed(rF, rRoot) =>
   LET D == Denote(rF, rRoot) IN
   \A off \in 0..(RSize + 1), n \in 0..(RSize + 2) : MReadAt(rF, rRoot, off, n) = Slice(D, off, n)
+(* the same, looked at only after the reader object has taken a step (sensitivity runs: TLC reports a
+   violation by an initial state differently) *)
+MechRefinesStep == rReply.op # "init" => MechRefines
 (* sequential reads tile the denotation: the reader's position is always the number of bytes delivered *)
 ReaderTypeOK == rPos >= 0 /\ (rReply.op = "read" => Len(rReply.bytes) <= 3)
 ReadTiles == [][rReply'.op = "read" => (rReply'.bytes = Slice(Denote(rF, rRoot), rPos, rPos' - rPos) /\ rPos' >= rPos)]_vars
@@ -431,9 +441,10 @@ SeqRange(s) == {s[i] : i \in 1..Len(s)}
 SameBag(s, t) == Len(s) = Len(t) /\ SeqRange(s) = SeqRange(t) /\ Cardinality(SeqRange(s)) = Len(s)
 
 Ids(n) == [i \in 1..n |-> i]
-SInit == /\ sMax \in SetMaxes /\ sN \in 0..SetNMax
+SInit == /\ sMax \in SetMaxes /\ sN = 0
          /\ RIdle /\ WIdle
-SNext == UNCHANGED vars
+SNext == /\ sN < SetNMax /\ sN' = sN + 1          \* one more member
+         /\ UNCHANGED <<rvars, wvars, sMax>>
 SSpec == SInit /\ [][SNext]_vars
 SMembersExact == Members(Spread(Ids(sN), sMax)) = Ids(sN)
 SNodesBounded == NodesBounded(Spread(Ids(sN), sMax), sMax)
